@@ -43,11 +43,11 @@ def run(tier, seed, only=None):
 
     res = Result("X03")
     rng = random.Random(seed)
-    r = check_model("Lifecycle", MC % ("Spec", INVS), timeout=300, workers=4)
+    r = check_model("Lifecycle", MC % ("Spec", INVS), timeout=900, workers=4)
     res.add_mc("Lifecycle: 16 configurations, crash at every step", r, "DependenciesHold, NoInferenceWithoutCheckpoint, Complete, Finishes")
     if r.violation:
         raise TLCError("Lifecycle violated: %s" % (r.violation,))
-    rc = check_model("Lifecycle", MC % ("SpecEarly", "INVARIANT DependenciesHold"), timeout=300, workers=4, expect_violation=("invariant", "DependenciesHold"))
+    rc = check_model("Lifecycle", MC % ("SpecEarly", "INVARIANT DependenciesHold"), timeout=900, workers=4, expect_violation=("invariant", "DependenciesHold"))
     res.add_mc("Lifecycle counter-model (metrics stored before the predictions)", rc, "must violate DependenciesHold (expected)")
     jobs = only if only is not None else jobs_for(tier, rng)
     obs = run_jobs(jobs, shim.REPO, seed, workers=10, timeout=1200)
